@@ -111,7 +111,8 @@ def make_project(rng, root):
         files[rel] = p
     w(".sqlfluff", "[sqlfluff]\ndialect = ansi\ntemplater = jinja\n" + rng.choice(["", "disable_noqa_except = L*,PRS\ndisable_noqa = True\n", "rules = LT01,LT02,AM06,CP01\n", "warnings = LT01\n"])
       + "\n[sqlfluff:templater:jinja:context]\ncols = a\nt = tbl\nflag = True\nn = 2\nname = x\noff = False\n")
-    w("sub/.sqlfluff", "[sqlfluff]\n" + rng.choice(["max_line_length = 40\n", "exclude_rules = LT02\n", "disable_noqa_except = LT01\ndisable_noqa = True\n", "dialect = postgres\n"]))
+    w("sub/.sqlfluff", "[sqlfluff]\n" + rng.choice(["max_line_length = 40\n", "exclude_rules = LT02\n", "disable_noqa_except = LT01\ndisable_noqa = True\n", "dialect = postgres\n"])
+      + rng.choice(["", "\n[sqlfluff:templater:jinja:context]\nonly_in_sub = sub_tbl\n"]))
     if rng.random() < 0.5:
         w(".sqlfluffignore", "ignored/\n")
         w("ignored/x.sql", "SELECT 1  FROM t\n")
@@ -130,6 +131,11 @@ def make_project(rng, root):
         else:
             t = gen.mutate_sql(rng, gen.sql_file(rng))
         w(("sub/" if rng.random() < 0.4 else "") + "q%d.sql" % i, t)
+    # per-file templating context: a variable defined for one file (in-file directive / sub directory) and merely used by another
+    w("ctx_def.sql", "-- sqlfluff:templater:jinja:context:only_here:my_table\nSELECT a FROM {{ only_here }}\n")
+    w("ctx_use.sql", "SELECT a FROM {{ only_here }}\n")
+    w("sub/ctx_sub.sql", "SELECT a FROM {{ only_in_sub }}\n")
+    w("ctx_use_sub.sql", "SELECT a FROM {{ only_in_sub }}\n")
     return files
 
 
@@ -191,9 +197,22 @@ def histories(ctx, n_projects):
                             ctx.violation("repeating a lint of the same file in the same process gave different violations",
                                           {"history": ops, "file": open(p).read()[:800], "first": first[p][:6], "now": got[:6]})
                     elif op == "shared_linter":
-                        shared_lnt.lint_paths((p,))
+                        # one Linter object reused for several files: each file's result must be what it is alone
+                        got = viol_key(shared_lnt.lint_paths((p,)))
+                        ctx.bump("relints")
+                        if got != first[p]:
+                            ctx.violation("a file linted by a Linter that has processed other files before gets different violations than when linted alone",
+                                          {"history": ops, "file": open(p).read()[:800], "alone": first[p][:6], "now": got[:6]})
                     elif op == "lint_dir":
-                        Linter(config=FluffConfig.from_path(root)).lint_paths((root,))
+                        res = Linter(config=FluffConfig.from_path(root)).lint_paths((root,))
+                        per = {}
+                        for r in res.as_records():
+                            per[os.path.normpath(r["filepath"])] = sorted((v["code"], v["start_line_no"], v["start_line_pos"], v["description"]) for v in r["violations"])
+                        for q in sqls:
+                            ctx.bump("relints")
+                            if os.path.normpath(q) in per and per[os.path.normpath(q)] != first[q]:
+                                ctx.violation("a file linted as part of its directory gets different violations than when linted alone",
+                                              {"history": ops, "file": open(q).read()[:800], "alone": first[q][:6], "in_directory": per[os.path.normpath(q)][:6]})
                     elif op == "cli_lint":
                         CliRunner().invoke(cli_lint, [p, "--disable-progress-bar", "--format", "json"])
                     elif op == "cli_parse":
